@@ -366,9 +366,14 @@ class _Join:
         return all(a.done for a in self.actors)
 
 
-def install_locks():
+def install_locks(shared_interpreter=False):
     """Replace the RLock names signac and synced_collections captured, and the
-    class-level lock objects that already exist."""
+    class-level lock objects that already exist.
+
+    shared_interpreter: several simulated *processes* run in this interpreter and therefore share
+    synced_collections' per-file lock table, which real processes would not: only then is the table the
+    tolerant one.  Everywhere else it is a plain dict, as in production - a lock entry that production code
+    loses (and then trips over with a KeyError) must be lost here too."""
     import signac.job
     import signac.project
     import synced_collections.buffers.file_buffered_collection as fbc
@@ -388,7 +393,7 @@ def install_locks():
         d = cls.__dict__
         if "_cls_lock" in d:
             cls._cls_lock = SimRLock()
-            cls._locks = _LockTable()
+            cls._locks = _LockTable() if shared_interpreter else {}
         if "_BUFFER_LOCK" in d:
             cls._BUFFER_LOCK = SimRLock()
 
